@@ -2,29 +2,55 @@ package main
 
 // C08: limit/passes semantics and clean end-of-ammo on every provider.
 //
-// Every run executes the exhaustive small matrix
-//   kinds {uri, uripost, raw, jsonl, jsonarr} x preload {0,1}  +  {grpcjson, httpscn, grpcscn, genjson}
-//   x limit 0..4 x passes 0..3 x n 1..4 x consumers {1,3}
-// on the REAL providers (public constructors, in-memory ammo file), plus random larger cells.
-// One cell = one line:  kind=uri preload=1 limit=2 passes=0 n=3 cons=1 cap=8 junk=0
-// `cap` = number of acquired ammo after which the harness cancels the context (cells without any bound are cut
-// there; bounded cells only get there if the provider over-delivers).
-// Observation:  delivered=2 cut=0 run=nil end=closed ops=5
-//   run  = what Provider.Run returned (nil|canceled|limit|passes|noammo|other:..|noreturn)
-//   end  = closed (every consumer got ok=false) | blocked | spinning (watchdog: no delivery/exit for two ticks;
-//          spinning = the ammo file is still being read)
-//   ops  = Read+Seek calls on the ammo file (bounded by the Spec, not predicted by the model)
+// One cell = one line:
+//   kind=uri preload=1 limit=2 passes=0 n=3 cons=1 cap=8 junk=0 [mode=drain|stall|ext|engine] [via=direct|cfg] [at=K] [shots=S] [pad=P]
+// kinds: uri uris uripost raw jsonl jsonarr (components/providers/http, with and without preload), grpcjson,
+// httpscn, grpcscn (scenario providers), genjson (core/provider JSON provider over MultiPassReader).
+// See harness/c08cell for what each mode does.  Observation per mode:
+//   drain   delivered=2 cut=0 run=nil end=closed seq=ok ops=5
+//   ext     delivered=2 cut=0 fired=1 run=canceled end=closed seq=ok ops=5
+//   stall   delivered=2 cut=1 ret=1 run=canceled left=0 end=closed seq=ok
+//   engine  shots=4 err=nil wait=1 seq=ok
+//     run   = what Provider.Run returned (nil|canceled|limit|passes|noammo|other:..|noreturn)
+//     end   = closed (every consumer got ok=false) | blocked | spinning | open
+//     seq   = the acquired ammo are the entries of the file in cyclic order (one consumer: exact order; several: as a multiset)
+//     ops   = Read+Seek calls on the ammo file (bounded by the Spec, not predicted by the model)
+//
+// Every run executes the exhaustive small matrix (all kinds x preload x limit 0..4 x passes 0..3 x n 1..4 x consumers
+// {1,3}) in mode drain, cancellation after every possible number of deliveries for a set of bounded cells, the stall
+// and ext matrices, a slice through the real engine, a slice constructed through the registered plugin factories, and
+// random larger cells.
 
 import (
 	"fmt"
 	"math/rand"
 	"strconv"
+	"strings"
 	"time"
 
+	"verifharness/c08cell"
 	"verifharness/drv"
-	"verifharness/provcell"
 )
 
+type variant struct {
+	kind    string
+	preload bool
+}
+
+func variants() []variant {
+	var vs []variant
+	for _, k := range c08cell.HTTPKinds {
+		vs = append(vs, variant{k, false}, variant{k, true})
+	}
+	for _, k := range c08cell.OtherKinds {
+		vs = append(vs, variant{k, false})
+	}
+	return vs
+}
+
+func expected(limit, passes, n int) (int, bool) { return c08cell.Expected(limit, passes, n) }
+
+// capFor: drain cells that are not meant to be cut get a cap above everything the provider may deliver
 func capFor(limit, passes, n int) int {
 	if limit == 0 && passes == 0 {
 		return 3*n + 5
@@ -36,49 +62,169 @@ func capFor(limit, passes, n int) int {
 	return m + n + 3
 }
 
-func line(kind string, preload bool, limit, passes, n, cons int, junk bool) string {
-	b := func(x bool) int {
-		if x {
-			return 1
-		}
-		return 0
+type cell struct {
+	v                     variant
+	limit, passes, n      int
+	cons, cap             int
+	junk                  bool
+	mode, via             string
+	at, shots, pad        int
+}
+
+func b2i(x bool) int {
+	if x {
+		return 1
 	}
-	return fmt.Sprintf("kind=%s preload=%d limit=%d passes=%d n=%d cons=%d cap=%d junk=%d",
-		kind, b(preload), limit, passes, n, cons, capFor(limit, passes, n), b(junk))
+	return 0
+}
+
+func (c cell) line() string {
+	s := fmt.Sprintf("kind=%s preload=%d limit=%d passes=%d n=%d cons=%d cap=%d junk=%d",
+		c.v.kind, b2i(c.v.preload), c.limit, c.passes, c.n, c.cons, c.cap, b2i(c.junk))
+	if c.mode != "" && c.mode != "drain" {
+		s += " mode=" + c.mode
+	}
+	if c.via != "" && c.via != "direct" {
+		s += " via=" + c.via
+	}
+	if c.mode == "ext" {
+		s += fmt.Sprintf(" at=%d", c.at)
+	}
+	if c.mode == "engine" {
+		s += fmt.Sprintf(" shots=%d", c.shots)
+	}
+	if c.pad != 0 {
+		s += fmt.Sprintf(" pad=%d", c.pad)
+	}
+	return s
 }
 
 func gen(r *rand.Rand, tier string) []string {
+	thorough := tier == "thorough"
 	var out []string
-	type variant struct {
-		kind    string
-		preload bool
+	add := func(c cell) { out = append(out, c.line()) }
+	vs := variants()
+
+	// A. exhaustive small matrix, consumers always ready, unbounded cells cut at cap
+	maxL, maxP, maxN := 4, 3, 4
+	if thorough {
+		maxL, maxP, maxN = 9, 4, 8
 	}
-	var variants []variant
-	for _, k := range provcell.HTTPKinds {
-		variants = append(variants, variant{k, false}, variant{k, true})
-	}
-	for _, k := range provcell.OtherKinds {
-		variants = append(variants, variant{k, false})
-	}
-	for _, v := range variants {
-		for limit := 0; limit <= 4; limit++ {
-			for passes := 0; passes <= 3; passes++ {
-				for n := 1; n <= 4; n++ {
+	for _, v := range vs {
+		for limit := 0; limit <= maxL; limit++ {
+			for passes := 0; passes <= maxP; passes++ {
+				for n := 1; n <= maxN; n++ {
 					for _, cons := range []int{1, 3} {
-						out = append(out, line(v.kind, v.preload, limit, passes, n, cons, (limit+passes+n)%2 == 1))
+						add(cell{v: v, limit: limit, passes: passes, n: n, cons: cons, cap: capFor(limit, passes, n), junk: (limit+passes+n)%2 == 1})
 					}
 				}
 			}
 		}
 	}
-	extra := 300
-	maxN, maxL, maxP := 12, 30, 6
-	if tier == "thorough" {
-		extra = 6000
-		maxN, maxL, maxP = 40, 150, 12
+
+	// B. cancellation after every possible number of deliveries (1 .. M+1) of bounded cells
+	type bnd struct{ limit, passes, n int }
+	bs := []bnd{{3, 0, 2}, {0, 2, 2}, {5, 2, 3}, {1, 0, 1}, {0, 1, 1}}
+	if thorough {
+		bs = nil
+		for limit := 0; limit <= 6; limit++ {
+			for passes := 0; passes <= 3; passes++ {
+				for n := 1; n <= 4; n++ {
+					if m, ok := expected(limit, passes, n); ok && m <= 12 {
+						bs = append(bs, bnd{limit, passes, n})
+					}
+				}
+			}
+		}
+	}
+	for _, v := range vs {
+		for _, b := range bs {
+			m, _ := expected(b.limit, b.passes, b.n)
+			for cp := 1; cp <= m+1; cp++ {
+				for _, cons := range []int{1, 3} {
+					add(cell{v: v, limit: b.limit, passes: b.passes, n: b.n, cons: cons, cap: cp})
+				}
+			}
+		}
+	}
+
+	// C. consumers that stop: exactly cap Acquire calls, then nobody receives; cancel; Run must return, sink closed
+	sb := []bnd{{0, 0, 1}, {0, 0, 3}, {3, 0, 1}, {3, 0, 3}, {0, 2, 1}, {0, 2, 3}, {4, 1, 3}, {2, 3, 2}}
+	caps := []int{0, 1, 2, 3, 5, 7}
+	if thorough {
+		sb = append(sb, bnd{0, 0, 8}, bnd{7, 0, 5}, bnd{0, 3, 4}, bnd{150, 0, 3}, bnd{0, 40, 4}, bnd{9, 5, 2}, bnd{101, 0, 2}, bnd{130, 0, 7})
+		caps = []int{0, 1, 2, 3, 4, 5, 6, 7, 9, 12, 20}
+	}
+	for _, v := range vs {
+		for _, b := range sb {
+			for _, cp := range caps {
+				for _, cons := range []int{1, 2} {
+					add(cell{v: v, limit: b.limit, passes: b.passes, n: b.n, cons: cons, cap: cp, mode: "stall"})
+				}
+			}
+		}
+	}
+
+	// D. cancel from inside the at-th file operation (0 = before Run); unbounded cells are also cut at cap
+	eb := []bnd{{0, 0, 1}, {0, 0, 3}, {3, 0, 2}, {0, 2, 3}, {5, 3, 2}}
+	maxAt := 8
+	pads := []int{0}
+	if thorough {
+		eb = append(eb, bnd{0, 0, 6}, bnd{8, 0, 5}, bnd{0, 3, 5}, bnd{20, 0, 4})
+		maxAt = 24
+		pads = []int{0, 1500}
+	}
+	for _, v := range vs {
+		for _, b := range eb {
+			for _, pad := range pads {
+				for at := 0; at <= maxAt; at++ {
+					cons := 1 + (at+b.n)%3
+					add(cell{v: v, limit: b.limit, passes: b.passes, n: b.n, cons: cons, cap: capFor(b.limit, b.passes, b.n), mode: "ext", at: at, pad: pad})
+				}
+			}
+		}
+	}
+
+	// E. through the real engine (provider built by the registered plugin factory)
+	gb := []bnd{{3, 0, 1}, {3, 0, 3}, {0, 2, 1}, {0, 2, 3}, {5, 2, 3}, {0, 0, 3}, {1, 1, 1}}
+	shots := []int{0, 4}
+	if thorough {
+		gb = append(gb, bnd{0, 0, 1}, bnd{7, 0, 2}, bnd{0, 3, 4}, bnd{9, 2, 5}, bnd{2, 9, 5}, bnd{140, 0, 3}, bnd{0, 30, 5})
+		shots = []int{0, 1, 4, 11}
+	}
+	for _, v := range vs {
+		for _, b := range gb {
+			for _, inst := range []int{1, 3} {
+				for _, sh := range shots {
+					if _, ok := expected(b.limit, b.passes, b.n); !ok && sh == 0 {
+						continue // nothing would end that run
+					}
+					add(cell{v: v, limit: b.limit, passes: b.passes, n: b.n, cons: inst, mode: "engine", via: "cfg", shots: sh})
+				}
+			}
+		}
+	}
+
+	// F. drain cells constructed through the registered plugin factories
+	for _, v := range vs {
+		for _, limit := range []int{0, 2, 5} {
+			for _, passes := range []int{0, 1, 2} {
+				for _, n := range []int{1, 3} {
+					add(cell{v: v, limit: limit, passes: passes, n: n, cons: 2, cap: capFor(limit, passes, n), via: "cfg", junk: n == 3})
+				}
+			}
+		}
+	}
+
+	// G. random larger cells, all modes
+	extra := 400
+	maxN, maxL, maxP = 12, 30, 6
+	if thorough {
+		extra = 9000
+		maxN, maxL, maxP = 40, 300, 12
 	}
 	for i := 0; i < extra; i++ {
-		v := variants[r.Intn(len(variants))]
+		v := vs[r.Intn(len(vs))]
 		n := 1 + r.Intn(maxN)
 		limit, passes := 0, 0
 		switch r.Intn(5) {
@@ -97,8 +243,41 @@ func gen(r *rand.Rand, tier string) []string {
 			passes = 1 + r.Intn(maxP)
 		default: // unbounded
 		}
-		cons := []int{1, 2, 3, 8}[r.Intn(4)]
-		out = append(out, line(v.kind, v.preload, limit, passes, n, cons, r.Intn(2) == 0))
+		m, bounded := expected(limit, passes, n)
+		c := cell{v: v, limit: limit, passes: passes, n: n, cons: []int{1, 2, 3, 8}[r.Intn(4)], cap: capFor(limit, passes, n), junk: r.Intn(2) == 0}
+		if r.Intn(3) == 0 {
+			c.via = "cfg"
+		}
+		if r.Intn(4) == 0 {
+			c.pad = 200 + r.Intn(1800)
+		}
+		switch r.Intn(6) {
+		case 0:
+			c.mode = "stall"
+			c.cap = r.Intn(2 * (n + 2))
+			if bounded && r.Intn(2) == 0 {
+				c.cap = m - 2 + r.Intn(5)
+				if c.cap < 0 {
+					c.cap = 0
+				}
+			}
+		case 1:
+			c.mode = "ext"
+			c.at = r.Intn(30)
+		case 2:
+			c.mode = "engine"
+			c.via = "cfg"
+			c.cons = 1 + r.Intn(4)
+			c.shots = r.Intn(2) * (1 + r.Intn(40))
+			if !bounded && c.shots == 0 {
+				c.shots = 1 + r.Intn(40)
+			}
+		case 3: // cut a bounded cell somewhere
+			if bounded && m > 0 {
+				c.cap = 1 + r.Intn(m+1)
+			}
+		}
+		add(c)
 	}
 	return out
 }
@@ -110,30 +289,37 @@ func atoi(s string) int {
 
 func run(input string) string {
 	kv := drv.KV(input)
-	n := atoi(kv["n"])
-	tags := make([]string, n)
-	for i := range tags {
-		tags[i] = "t" + strconv.Itoa(i)
-	}
-	c := provcell.Cell{
+	c := c08cell.Cell{
 		Kind:    kv["kind"],
 		Preload: kv["preload"] == "1",
 		Limit:   atoi(kv["limit"]),
 		Passes:  atoi(kv["passes"]),
-		Tags:    tags,
+		N:       atoi(kv["n"]),
 		Cons:    atoi(kv["cons"]),
 		Cap:     atoi(kv["cap"]),
 		Junk:    kv["junk"] == "1",
+		Pad:     atoi(kv["pad"]),
+		Mode:    kv["mode"],
+		At:      atoi(kv["at"]),
+		Via:     kv["via"],
+		Shots:   atoi(kv["shots"]),
 	}
-	o := provcell.Run(c)
+	if c.Mode == "" {
+		c.Mode = "drain"
+	}
+	o := c08cell.Run(c)
 	if o.Construct != "" {
 		return "construct=" + o.Construct
 	}
-	cut := 0
-	if o.Cut {
-		cut = 1
+	switch c.Mode {
+	case "stall":
+		return fmt.Sprintf("delivered=%d cut=%d ret=%d run=%s left=%d end=%s seq=%s", o.Delivered, b2i(o.Cut), b2i(o.Ret), o.Run, o.Left, o.End, o.Seq)
+	case "ext":
+		return fmt.Sprintf("delivered=%d cut=%d fired=%d run=%s end=%s seq=%s ops=%d", o.Delivered, b2i(o.Cut), b2i(o.Fired), o.Run, o.End, o.Seq, o.Ops)
+	case "engine":
+		return fmt.Sprintf("shots=%d err=%s wait=%d seq=%s", o.Shots, o.EngErr, b2i(o.Wait), o.Seq)
 	}
-	return fmt.Sprintf("delivered=%d cut=%d run=%s end=%s ops=%d", o.Delivered, cut, o.Run, o.End, o.Ops)
+	return fmt.Sprintf("delivered=%d cut=%d run=%s end=%s seq=%s ops=%d", o.Delivered, b2i(o.Cut), o.Run, o.End, o.Seq, o.Ops)
 }
 
 func class(input, obs string) string {
@@ -152,7 +338,14 @@ func class(input, obs string) string {
 	if kv["preload"] == "1" {
 		pre = "+preload"
 	}
-	return kv["kind"] + pre + "/" + b
+	mode := kv["mode"]
+	if mode == "" {
+		mode = "drain"
+		if strings.Contains(obs, "cut=1") && b != "unbounded" {
+			mode = "drain-cut"
+		}
+	}
+	return mode + ":" + kv["kind"] + pre + "/" + b
 }
 
 func main() {
@@ -162,9 +355,11 @@ func main() {
 		Run:     run,
 		Class:   class,
 		Workers: 24,
-		Timeout: 30 * time.Second,
-		Rule: "exhaustive matrix kinds{uri,uripost,raw,jsonl,jsonarr}x preload + {grpcjson,httpscn,grpcscn,genjson} x limit 0..4 x passes 0..3 x n 1..4 x consumers{1,3} " +
-			"on the real providers built by their public constructors over an in-memory ammo file, plus random larger cells (n, limit, passes, consumers); " +
-			"cells without a bound are cancelled after cap acquisitions; every cell is non-trivial (class = kind/preload/bound shape)",
+		Timeout: 60 * time.Second,
+		Rule: "real providers (public constructors, or the registered plugin factories via config.DecodeAndValidate) over an in-memory ammo file: " +
+			"exhaustive matrix kinds{uri,uris,uripost,raw,jsonl,jsonarr}x preload + {grpcjson,httpscn,grpcscn,genjson} x limit 0..4 x passes 0..3 x n 1..4 x consumers{1,3} with consumers always ready " +
+			"(unbounded cells cancelled after cap acquisitions); cancellation after every number of deliveries 1..M+1 of bounded cells; consumers that stop after cap acquisitions followed by a cancel (stall); " +
+			"cancellation from inside the k-th file operation (ext); a slice through the real core/engine with 1 or 3 instances and a recording gun; random larger cells in all modes. " +
+			"Every cell is non-trivial (class = mode:kind/preload/bound shape)",
 	})
 }
